@@ -33,12 +33,12 @@ def parsePauli? (len : Nat) (s : String) : Option PauliB := do
 
 def pauliStr (len : Nat) (p : PauliB) : String := bitsStr ([p.s0, p.s1] ++ bitsOfNat len p.v)
 
-def parseMat? (m : Nat) (s : String) : Option Mat := do
+def parseMat? (m : Nat) (s : String) : Option Clifford.Mat := do
   let es ← parseGIntList? s
   if es.length ≠ m * m then none
   else some ((List.range m).map fun i => (List.range m).map fun j => es.getD (i * m + j) 0)
 
-def matStr (A : Mat) : String := gintListStr A.flatten
+def matStr (A : Clifford.Mat) : String := gintListStr A.flatten
 
 def errStr : Err → String
   | .assert => "error:assert"
@@ -53,7 +53,7 @@ def outStr : Out → String
   | .pauli n p => pauliStr (2 * n) p
   | .gates gs => if gs.isEmpty then "-" else ",".intercalate (gs.map gateStr)
 
-def parseOp? (s : String) : Option Op :=
+def parseOp? (s : String) : Option Clifford.Op :=
   match s.splitOn ":" with
   | ["q"] => some .query
   | ["e"] => some .exportCirc
@@ -132,6 +132,23 @@ def handle (args : List String) : String :=
       if sub.isEmpty || sub.any (· ≥ 4 ^ n) then return "bad-op"
       let out := subsetStabilizer n sub
       return if out.isEmpty then "-" else "|".intercalate (out.map fun t => natListStr (t.flatMap fun p => [p.1, p.2]))
+  | ["opmat", n, key, qs] => Id.run do
+      -- the operator of the exported gate as C03 defines it (`embed` / `ctrlEmbed`), the constant `gate_conjugation_placed` is about
+      let some n := n.toNat? | return "bad-op"
+      if n = 0 || n > 4 then return "bad-op"
+      let some key := GateKey.ofName? key | return "bad-op"
+      let some qs := parseQs? qs | return "bad-op"
+      if qs.length ≠ key.arity || qs.any (· ≥ n) || (qs.length = 2 && qs.getD 0 0 = qs.getD 1 0) then return "bad-op"
+      let G := gateOpG n ⟨key, qs⟩
+      let idx := List.range (2 ^ n)
+      return gintListStr (idx.flatMap fun r => idx.map fun c => G (Bits.ofNat n r) (Bits.ofNat n c))
+  | ["paulimat", n, p] => Id.run do
+      -- C08's matrix of the binary Pauli (`Pauli.matExp`), the constant `PM` of the theorems, over ℤ[i]
+      let some n := n.toNat? | return "bad-op"
+      if n = 0 || n > 4 then return "bad-op"
+      let some p := parsePauli? (2 * n) p | return "bad-op"
+      let idx := List.range (2 ^ n)
+      return gintListStr (idx.flatMap fun r => idx.map fun c => pauliEntG n p (Bits.ofNat n r) (Bits.ofNat n c))
   | ["a2f", k, M] => Id.run do
       let some k := k.toNat? | return "bad-op"
       if k = 0 || k > 4 then return "bad-op"
